@@ -21,7 +21,7 @@ CONSTANTS TypeNames,   \* registered type names (strings, valid types)
           EmitAll      \* TRUE: step = last call (simulate); FALSE: step = history at MaxOps
 
 Majors == {v.ma : v \in Vers}
-PreNames == <<"alpha", "alpha.1", "alpha.2", "beta", "rc1">>   \* in semver precedence: identifiers in
+PreNames == <<"alpha", "alpha.1", "alpha.2", "alpha.9", "alpha.10", "beta", "rc1">>   \* in semver precedence: identifiers in
                      \* ASCII order, numeric ones by value, a longer list of identifiers is higher
 PreRank(p) == IF p = "" THEN 99 ELSE CHOOSE i \in 1..Len(PreNames) : PreNames[i] = p
 
@@ -145,7 +145,8 @@ TypeOK == Len(hist) <= MaxOps
 V(ma, mi, pa, pre) == [ma |-> ma, mi |-> mi, pa |-> pa, pre |-> pre]
 VersQuick == {V(1, 0, 0, "alpha"), V(1, 0, 0, "alpha.1"), V(1, 0, 0, "alpha.2"), V(1, 0, 0, "beta"), V(1, 0, 0, ""),
               V(1, 1, 0, ""), V(2, 0, 0, "")}
-VersTiny  == {V(1, 0, 0, "alpha.1"), V(1, 0, 0, "alpha.2"), V(1, 0, 0, "beta"), V(1, 1, 0, ""), V(2, 0, 0, "")}
+\* alpha.2 / alpha.10: numeric identifiers of different digit counts are ordered by value, not as text (seeded change C31e)
+VersTiny  == {V(1, 0, 0, "alpha.2"), V(1, 0, 0, "alpha.10"), V(1, 0, 0, "beta"), V(1, 1, 0, ""), V(2, 0, 0, "")}
 VersDeep  == {V(1, 0, 0, "alpha.1"), V(1, 0, 0, "beta"), V(1, 1, 0, "")}
-VersSim   == {V(ma, mi, 0, pre) : ma \in 0..2, mi \in 0..2, pre \in {"", "alpha", "alpha.1", "alpha.2", "beta", "rc1"}}
+VersSim   == {V(ma, mi, 0, pre) : ma \in 0..2, mi \in 0..2, pre \in {"", "alpha", "alpha.1", "alpha.2", "alpha.9", "alpha.10", "beta", "rc1"}}
 =============================================================================
